@@ -176,6 +176,11 @@ func c20PublisherStack(r *Run) {
 			msgs = append(msgs, m)
 			specs = append(specs, sp)
 		}
+		// a third of the batches are published a few seconds after the messages (and the delays in their contexts) were made
+		if t.Chance(1, 3) {
+			time.Sleep(time.Duration(1+t.Int(4)) * time.Second)
+		}
+		pubNow := time.Now().UTC()
 		before := len(inner.Calls)
 		var perr error
 		pv, pan := Call(func() { perr = pub.Publish("topic", msgs...) })
@@ -286,9 +291,9 @@ func c20PublisherStack(r *Run) {
 					r.Fail("C20.R3", "delay metadata that was already present was overwritten", "%s: %s for=%q until=%q", what, m.UUID, gotFor, gotUntil)
 				}
 			case 2:
-				c20CheckStamp(r, what, m.UUID, gotFor, gotUntil, sp.d, now.Add(sp.d), "context delay (For)")
+				c20CheckStamp(r, what, m.UUID, gotFor, gotUntil, sp.d, now.Add(sp.d), now, "context delay (For)")
 			case 3:
-				c20CheckStamp(r, what, m.UUID, gotFor, gotUntil, sp.until.Sub(now), sp.until, "context delay (Until)")
+				c20CheckStamp(r, what, m.UUID, gotFor, gotUntil, sp.until.Sub(now), sp.until, now, "context delay (Until)")
 			case 4:
 				// a zero delay in the context: stamped as a zero delay (how "until" is written for it is not specified)
 				if zd, zerr := time.ParseDuration(gotFor); zerr != nil || zd != 0 {
@@ -296,7 +301,7 @@ func c20PublisherStack(r *Run) {
 				}
 			default:
 				if genMode == 1 {
-					c20CheckStamp(r, what, m.UUID, gotFor, gotUntil, genDelay, now.Add(genDelay), "default generator")
+					c20CheckStamp(r, what, m.UUID, gotFor, gotUntil, genDelay, pubNow.Add(genDelay), pubNow, "default generator")
 				} else if gotFor != "" || gotUntil != "" {
 					r.Fail("C20.R3", "a delay was stamped although none is available (AllowNoDelay)", "%s: %s for=%q until=%q", what, m.UUID, gotFor, gotUntil)
 				}
@@ -336,7 +341,8 @@ func kindsOfDelay(s []c20DelaySpec) []int {
 	return o
 }
 
-func c20CheckStamp(r *Run, what, uuid, gotFor, gotUntil string, wantFor time.Duration, wantUntil time.Time, source string) {
+// from: the earliest instant the delay can have been made (the stamp's "now" lies between it and the present)
+func c20CheckStamp(r *Run, what, uuid, gotFor, gotUntil string, wantFor time.Duration, wantUntil time.Time, from time.Time, source string) {
 	f, ferr := time.ParseDuration(gotFor)
 	u, uerr := time.Parse(time.RFC3339, gotUntil)
 	if ferr != nil || uerr != nil {
@@ -349,8 +355,8 @@ func c20CheckStamp(r *Run, what, uuid, gotFor, gotUntil string, wantFor time.Dur
 	if d := u.Sub(wantUntil); d > time.Second || d < -time.Second {
 		r.Fail("C20.R3", "the stamped delayed-until is not the one chosen by precedence", "%s: %s (%s) delayed-until %v, expected %v", what, uuid, source, u, wantUntil)
 	}
-	// delayed-until and delayed-for agree (the stamp was computed at this simulated instant)
-	if d := u.Sub(time.Now().UTC().Add(f)); d >= time.Second || d <= -time.Second {
+	// delayed-until and delayed-for agree: until minus for is an instant between the making of the delay and now
+	if origin := u.Add(-f); origin.Before(from.Add(-time.Second)) || origin.After(time.Now().UTC().Add(time.Second)) {
 		r.Fail("C20.R3", "delayed-for and delayed-until disagree", "%s: %s for=%v until=%v now=%v", what, uuid, f, u, time.Now().UTC())
 	}
 }
